@@ -429,4 +429,55 @@ theorem typing' (cfg : Cfg) (k : Kind) (xs : List QP) (hk : ∀ x ∈ xs, x.val.
     cases k <;> simp [supported, outKind] at hs <;> simp [outKind]
   all_goals (simp [Meaning.kinds] at hk')
 
+/-! ### streaming transformations: the reducer state machine against the definition -/
+
+/-- one point through a transformation reducer: `AggregateX` then `Emit` -/
+def tStep (cfg : Cfg) (s : TState) (p : QP) : TState × List RP := tEmit cfg (tAgg cfg s p)
+
+/-- the reducer state after a list of points (each followed by its `Emit`) -/
+def tRun (cfg : Cfg) (s : TState) (xs : List QP) : TState := xs.foldl (fun s p => (tStep cfg s p).1) s
+
+theorem cumsum_emit_state (cfg : Cfg) (hf : cfg.fn = .cumulativeSum) (s : TState) : (tEmit cfg s).1 = s := by
+  simp only [tEmit, hf]; split <;> rfl
+
+theorem cumsum_run (cfg : Cfg) (hf : cfg.fn = .cumulativeSum) (k : Kind) (xs : List QP)
+    (hk : ∀ x ∈ xs, x.val.kind = k) :
+    ∀ (s : TState), (tRun cfg s xs).sum =
+      match xs.getLast? with
+      | none => s.sum
+      | some b => some (b.time, xs.foldl (fun (acc : Val) (x : QP) => acc.add x.val)
+          (match s.sum with | some (_, v) => v | none => zeroOf k)) := by
+  induction xs with
+  | nil => intro s; rfl
+  | cons x r ih =>
+    intro s
+    have hx : x.val.kind = k := hk x (by simp)
+    have hstep : (tStep cfg s x).1.sum =
+        some (x.time, (match s.sum with | some (_, v) => v | none => zeroOf k).add x.val) := by
+      simp only [tStep, cumsum_emit_state cfg hf, tAgg, hf]
+      cases s.sum with
+      | none => simp [hx]
+      | some tv => simp
+    simp only [tRun, List.foldl] at ih ⊢
+    rw [ih (fun y hy => hk y (by simp [hy])) (tStep cfg s x).1, hstep]
+    cases hr : r.getLast? with
+    | none =>
+      have : r = [] := by cases r with | nil => rfl | cons a t => simp [List.getLast?_cons] at hr
+      subst this; simp
+    | some b => simp [List.getLast?_cons, hr]
+
+/-- **cumulativeSum emits the prefix sums**: after the points `xs` (all of one kind) the reducer emits, for
+one more point `p`, that point's time and the sum of all values so far. -/
+theorem cumsum_emits_prefix_sum' (cfg : Cfg) (hf : cfg.fn = .cumulativeSum) (k : Kind) (xs : List QP) (p : QP)
+    (hk : ∀ x ∈ xs ++ [p], x.val.kind = k) :
+    (tStep cfg (tRun cfg {} xs) p).2 = [{ time := some p.time, val := sumVals k (xs ++ [p]) }] := by
+  have h := cumsum_run cfg hf k (xs ++ [p]) hk {}
+  simp only [tRun, List.foldl_append, List.foldl, List.getLast?_append, List.getLast?_singleton, Option.some_or] at h
+  have hs := cumsum_emit_state cfg hf (tAgg cfg (tRun cfg {} xs) p)
+  simp only [tStep, tRun] at h hs ⊢
+  rw [hs] at h
+  generalize tAgg cfg (List.foldl (fun s p => (tEmit cfg (tAgg cfg s p)).1) {} xs) p = S at h ⊢
+  simp only [tEmit, hf, h, sumVals, List.foldl_append, List.foldl]
+
+
 end Kap.C11
